@@ -77,3 +77,105 @@ def run_programs(chk, programs, tag, minimal_parens=False, checks_flag=True):
         kind, body, mout = model_says(v)
         res.append({"origin": origin, "ast": ast, "src": src, "kind": kind, "body": body, "out": mout, "impl": im})
     return res
+
+
+def load_corpus(pid):
+    from checks.c01 import to_tuple
+    out = []
+    d = os.path.join(C.VERIF, "corpus", pid)
+    if os.path.isdir(d):
+        for f in sorted(os.listdir(d)):
+            if f.endswith(".json"):
+                for item in json.load(open(os.path.join(d, f))):
+                    out.append(("corpus:" + item.get("name", f), to_tuple(item["ast"])))
+    return out
+
+
+def run_profile(pid, props_file, pinned, gen_cls, profile, known_fn, rule, n_quick, n_thorough, tier, seed,
+                size=(2, 4), depth=2, level_note=""):
+    """generic check for a property decided against the reference semantics.
+    known_fn(result_record) -> None | "<finding id> <what fails>" classifies a
+    disagreement as a known finding."""
+    chk = C.Check(pid, tier, seed, "proof")
+    ok, log = C.coq_build(UNIT, ["SemRun.vo"])
+    if not ok:
+        chk.log("reference semantics does not compile:\n" + log[-2000:])
+    pr = C.check_props_file(UNIT, props_file, pinned)
+    hits = C.forbidden_scan(UNIT)
+    for name in pinned:
+        good = pr["ok"] and name not in pr["missing"] and ("Print Assumptions " + name) not in pr["missing"] \
+            and not pr["bad_axioms"] and not hits
+        chk.oblige("thm:" + name, good)
+    if not pr["ok"]:
+        chk.log(props_file + " does not check:\n" + pr["log"][-2000:])
+    rng = C.Rng(seed)
+    progs = load_corpus(pid)
+    n = n_quick if tier == "quick" else n_thorough
+    for _ in range(n):
+        g = gen_cls(rng, profile)
+        progs.append(("gen", g.program(size[0] + rng.below(size[1]), depth)))
+    res = run_programs(chk, progs, pid.lower())
+    if res is None:
+        return chk.finish("n/a")
+    bad = []
+    dist = {"value": 0, "thrown": 0, "error": 0, "fuel": 0, "unsupported": 0, "rejected-by-compiler": 0}
+    known_hits = 0
+    for r in res:
+        kind = r["kind"]
+        im = r["impl"]
+        if im.get("result") == "ECompile" and not r["origin"].startswith("corpus"):
+            dist["rejected-by-compiler"] += 1
+            continue
+        dist[["value", "thrown", "error", "fuel", "unsupported", "unsupported"][kind]] += 1
+        chk.count_case(r["src"], kind in (0, 1, 2) and r["src"].count("\n") >= 3)
+        if not agree(kind, r["body"], r["out"], im):
+            k = known_fn(r)
+            if k:
+                chk.known(k)
+                known_hits += 1
+            else:
+                bad.append(r)
+    if bad:
+        bad.sort(key=lambda r: len(r["src"]))
+        r = bad[0]
+        chk.violation("input", {
+            "kind": "input", "program": r["src"], "reference_says": [r["kind"], r["body"], r["out"]],
+            "impl_says": r["impl"], "predicate_failed": "result/output differs from the reference semantics",
+            "others": len(bad) - 1, "ast": r["ast"]})
+        chk.log(f"{len(bad)} programs disagree with the reference semantics; smallest:\n{r['src']}"
+                f"reference: {r['kind']} {r['body']} {r['out']!r}\nimpl: {r['impl']}")
+    broken = [o for o in chk.obligations if not o[1]]
+    if broken and not bad:
+        chk.violation("obligation", {"kind": "obligation", "broken": [o[0] for o in broken]}, no_input=True)
+    if n and dist["rejected-by-compiler"] * 4 > len(res):
+        chk.notes.append("more than a quarter of the generated programs were rejected by the compiler: generator needs attention")
+    tb = ["Coq 8.16.1 kernel; vm_compute evaluates the reference interpreter",
+          "axioms (Flocq's, via the float operations of Sem): " + ", ".join(pr["axioms"]),
+          "checks/coregen.py prints each AST both as Gallina and as Koto text",
+          "kh_run harness: canonical value rendering, error classes"]
+    return chk.finish(rule=rule, explanation="reference semantics (Gallina) vs real compiler+VM on generated programs; "
+                      "laws of the reference pinned as theorems", trusted_base=tb,
+                      extra={"distribution": dist, "reference_disagreements": len(bad), "known_class_hits": known_hits})
+
+
+def replay_program(pid, path):
+    data = json.load(open(path))
+    src = data.get("program")
+    if not src:
+        print("replay file names an obligation:", data.get("broken"))
+        return None
+    binp, _ = C.build_harness("kh_run")
+    cf = os.path.join(C.BUILD, "cases", f"{pid.lower()}-replay.jsonl")
+    os.makedirs(os.path.dirname(cf), exist_ok=True)
+    with open(cf, "w") as f:
+        f.write(json.dumps({"src": src, "limit_ms": 2000}) + "\n")
+    rc, out = C.sh([binp, cf])
+    lines = [json.loads(l) for l in out.splitlines() if l.startswith("{")]
+    print(src)
+    print("impl:", lines)
+    ref = data["reference_says"]
+    if not agree(ref[0], ref[1], ref[2], lines[0]):
+        print(f"VIOLATION property={pid} replay={path}")
+        return 1
+    print("the implementation now agrees with the reference")
+    return 0
